@@ -5,7 +5,7 @@ CONSTANTS
   QS = {0, 1, 2}
   NReq = 4
   NConn = 3
-  MaxDie = 1
+  MaxDie = 2
   MaxTmo = 2
   ExtClose = FALSE
   FixPQ = TRUE
